@@ -95,3 +95,6 @@ Theorem C18_code_communication_control : forall cfg ct node, fn_edition_communic
   if is_edition (std cfg) then (cty <- ct_normalize (CtInt 1) ;; payload_of (cc_make cfg ct cty node)) else fail EConfig.
 Proof. exact tie_edition_communication_control_request. Qed.
 Print Assumptions C18_code_communication_control.
+Theorem C18_code_config_isolated : forall v w, fn_config_isolated v w = ret [v; 2006; 1; 2013].
+Proof. exact tie_config_isolated. Qed.
+Print Assumptions C18_code_config_isolated.
